@@ -602,6 +602,30 @@ def events_run(ctx, params, iters, cases, clear=True, expect_violation=False, em
                count=not expect_violation)
 
 
+def rand_events_module(ctx, nparams, salt=0):
+    """Randomised parameter sets for SliderEvents.tla on the dyadic lattice (lengths 16 k eighths, tick distances a multiple of
+    length / 16 or 0 / infinite / beyond the length, even span durations, velocities from the usual set, 1..7 spans)."""
+    import random
+    rnd = random.Random(ctx.seed * 3571 + 41 + salt * 67867967)
+    recs = set()
+    while len(recs) < nparams:
+        ln = 16 * rnd.randint(1, 120)
+        td = rnd.choice([0, 99999999, ln * 2, (ln // 16) * rnd.randint(1, 16), (ln // 16) * rnd.randint(1, 16), (ln // 16) * rnd.randint(1, 16)])
+        recs.add("[start |-> %d, sd |-> %d, md |-> %d, td |-> %d, len |-> %d, spans |-> %d]" % (
+            rnd.randint(-40000, 160000), 2 * rnd.randint(1, 1500), rnd.choice([0, 80, 160, 400, 800, 1600, 4000]), td, ln, rnd.randint(1, 7)))
+    text = ("----------------------------- MODULE RandEvents -----------------------------\n"
+            "(* generated by bin/plans.py (rand_events_module) from VERIF_SEED = %d - do not edit.  Randomised parameter sets\n"
+            "   for SliderEvents on the dyadic lattice: the model is the oracle. *)\n"
+            "EXTENDS SliderEvents\n\nRandParams == {\n    %s }\n"
+            "=============================================================================\n") % (ctx.seed, ",\n    ".join(sorted(recs)))
+    path = os.path.join(SPEC, "RandEvents.tla")
+    old = open(path).read() if os.path.exists(path) else None
+    if old != text:
+        with open(path, "w") as fh:
+            fh.write(text)
+    sany(ctx, "RandEvents")
+
+
 def check_C20(ctx):
     thorough = ctx.tier == "thorough"
     for m in ("SliderEvents", "Trace_SliderEvents"):
@@ -610,6 +634,12 @@ def check_C20(ctx):
     events_run(ctx, "ParamsFull" if thorough else "ParamsQuick", 1, cases)
     events_run(ctx, "ParamsBig", 2, cases)
     events_run(ctx, "ParamsSmall", 3 if thorough else 2, cases)
+    # seed-generated parameter sets on the lattice (the model stays the oracle): every behaviour incl. one abandoned predecessor
+    for salt in ([3, 2, 1, 0] if thorough else [0]):
+        rand_events_module(ctx, 24, salt)
+        cfg = dict(spec="Spec", invariants=EVENTS_INV, properties=["NextFAgrees"],
+                   constants=dict(Params="<-RandParams", MaxIters="2", ClearOnNew="TRUE", Emit="TRUE"))
+        tlc(ctx, "RandEvents", "MC_RandEvents", cfg, workers=14, timeout=3000, cases_file=cases)
     # negative control: without ticks.clear() a stale buffer corrupts the next stream
     events_run(ctx, "ParamsSmall", 2, None, clear=False, expect_violation=True)
     summ = harness(ctx, ["events", "replay"], cases_file=cases, name="events-replay", timeout=3600)
